@@ -13,7 +13,19 @@ def run_translator(harness, sub, outfile, args=()):
 
 REGISTRY = [
     ("gen-ngapschema", "NgapSchema.v", ()),
+    ("gen-driverskel", "DriverSkel.v", (C.REPO,)),
+    ("gen-mainwiring", "MainWiring.v", (C.REPO,)),
+    ("gen-conftags", "ConfTags.v", ()),
 ]   # (sub, outfile, args)
+
+
+def regen(harness, outfiles):
+    """regenerate the named Gen files only"""
+    changed = []
+    for sub, outfile, args in REGISTRY:
+        if outfile in outfiles and run_translator(harness, sub, outfile, args):
+            changed.append(outfile)
+    return changed
 
 
 def regen_all(harness):
